@@ -274,9 +274,9 @@ LATER_RULES = {
     "C07": "R07d per-variant working state; R07e left-strip handling for every opening token; R07f field token rebuilt in format-grammar order; R07g override delta measured on the rendered text; R07h adjusted slices carry the running delta.",
     "C08": "R08a also: environment policies stay at Jinja's defaults; R08d stand-ins never win over the user's context (bulk merges included). R08e ignore_templating is decided by membership of 'templating' in the ignore list.",
     "C09": "R09g overlapping occurrences counted; R09h context layered default < config < override; R09i a matched placeholder is a templated slice. R09j infer_type results.",
-    "C10": "R10e scan bounds; R10f every templated slice is a conflict; R10g break safety by literalness only; R10h JJ01 tag surgery; R10i end of file is the end of the last raw slice. R10j JJ01 rebuilds a tag from its own five parts in order.",
+    "C10": "R10e scan bounds; R10f every templated slice is a conflict; R10g break safety by literalness only; R10h JJ01 tag surgery; R10i end of file is the end of the last raw slice. R10j JJ01 rebuilds a tag from its own five parts in order. R10f also: only create fixes may ask that ALL slices be templated.",
     "C11": "R11e autodetect judges the whole file, never a slice; R11f string input reaches render_string as given.",
-    "C12": "R12d what RF06 unquotes lexes back as one word; R12e borrowed whitespace goes on the gap side of a pending insertion.",
+    "C12": "R12d what RF06 unquotes lexes back as one word; R12e borrowed whitespace goes on the gap side of a pending insertion. R12f segments re-created by a fix keep their source order (backwards scans cancel out).",
     "C14": "R14c comment guard of respace; R14d LT09 never moves a target behind a comment; R14e LT12's trailing-newline scan stops at comments. R14f determine_constraints' verdict is final.",
     "C15": "R15c CP05 child iteration; R15d no keyword parser matches quoted text. R15e no capitalisation rule crawls a type that may be a quoted name (four known findings).",
     "C18": "R18e templating errors are kept on every path of the variant loop; 'unfiltered' counts also keep warning-level errors. R18f root_variant returns the first parsed variant or None.",
@@ -288,7 +288,7 @@ LATER_RULES = {
     "C24": "R24g a Linter keeps no state between files. R24h every sequenced file yields a task; no skip decided at dispatch.",
     "C25": "R25e inner ignore files loaded for every walked directory; R25h every outer ignore source tried; R25i same-name options forwarded from the parameter of that name. R25j sub-directories dropped only by the ignore test, on a path built from the walked directory.",
     "C27": "R27d copy() deep-copies; R27e nested_combine stores every key; R27f unset command-line options do not override config files.",
-    "C28": "R28d per-variant tree output; R28e record values set in the iteration that uses them; R28f comment / non-comment lists partition the children; R28g type and text printed in full.",
+    "C28": "R28d per-variant tree output; R28e record values set in the iteration that uses them; R28f comment / non-comment lists partition the children; R28g type and text printed in full. R28h machine-readable output keeps the key order; R28i only an empty tuple becomes null.",
     "C29": "R29c matchable class references; R29d a dialect module changes only its own dialect object.",
     "C30": "R30e same-range patches conflict unless identical; R30f / R30h the slicer's equality pop (after the flush, on the equality only); R30g dedupe key = range + text. R30i overlap test symmetric.",
     "C31": "R31c also: an unrecognised newline finder is judged for splitlines() before the table rule gives up. R31d serialised create fixes collapse every coordinate onto the kept end.",
